@@ -146,6 +146,132 @@ def aliasPairs (w : World) : List (Nat × Nat × Nat × Nat) :=
             if (ai.getD k []).any (fun a => (aj.getD l []).contains a) then some (i, k, j, l) else none
       else []
 
+/-! ### the clone semantics made explicit
+
+  `ruleOf` above is the compact rule table the driver uses.  Below, the same table is DERIVED: the phases of
+  `EvolvableAlgorithm.clone` in source order (`clonePhases`), the decision table of `copy_attributes`
+  (`copyAction`), and a small semantics (`stepSlot` / `deriveRule`) that follows one attribute of the new agent
+  through the phases.  `Proofs/CloneGenEq.lean` proves `deriveRule (clonePhases b) copyAction = ruleOf b` and that
+  the phase list / decision table / listing predicate GENERATED from the source text (`Gen/CloneGen.lean`,
+  harness/py2lean_clone.py) are these. -/
+
+/-- how an object handed to the clone relates to the parent's object -/
+inductive Share
+  | fresh | byRef
+deriving Repr, DecidableEq
+
+/-- what `copy_attributes` does with one attribute -/
+inductive Action
+  | skip              -- `continue`: the attribute is not looked at, the clone keeps its own
+  | keepOwn           -- no assignment: the clone keeps what its constructor made / received
+  | freshDeep         -- `setattr(clone, a, copy.deepcopy(<parent's>))`
+  | freshPerElement   -- `setattr(clone, a, [copy.deepcopy(el) for el in <parent's>])`
+  | byRef             -- `setattr(clone, a, <parent's>)`: a "copy" that shares the parent's object
+deriving Repr, DecidableEq
+
+/-- decision table of `copy_attributes` for an attribute that parent and clone both have:
+    kind × "the parent's value equals the clone's own value" → action.  (The evolvable kinds are never
+    listed by `inspect_attributes`; the row exists for totality only.) -/
+def copyAction : Kind → Bool → Action
+  | .callable, _ => .skip
+  | .list, _ => .freshPerElement
+  | .registry, _ => .freshDeep
+  | .tensor, eq | .ndarray, eq | .other, eq | .immutable, eq => if eq then .keepOwn else .freshDeep
+  | .network, _ | .optimizer, _ | .target _, _ => .skip
+
+/-- an attribute the clone's constructor did not create is deep-copied -/
+def copyAbsent : Action := .freshDeep
+
+/-- which networks a re-created optimizer is built over -/
+inductive NetSrc
+  | cloned | parents
+deriving Repr, DecidableEq
+
+/-- the phases of `clone`, with what the heap semantics needs to know of each -/
+inductive Phase
+  | construct (args : Share)              -- `type(self)(**input_args)`: how constructor arguments are passed
+  | modules (single list : Share)         -- every evolvable network (list of networks) attribute is re-assigned
+  | hook                                  -- `clone.mutation_hook()`
+  | optimizers (nets : NetSrc) (state : Share)   -- new OptimizerWrapper + load_state_dict(<state>)
+  | copyAttrs                             -- `copy_attributes(self, clone)`
+  | index                                 -- `clone.index = index`
+deriving Repr, DecidableEq
+
+def clonePhases (optByRef : Bool) : List Phase :=
+  [.construct .byRef, .modules .fresh .fresh, .hook,
+   .optimizers .cloned (if optByRef then .byRef else .fresh), .copyAttrs, .index]
+
+/-- `AgentWrapper.clone`: re-invoke the constructor with the attributes named like its parameters, then
+    the same `copy_attributes` -/
+def wrapperPhases : List Phase := [.construct .byRef, .copyAttrs]
+
+/-- which members `inspect_attributes` lists -/
+def inspectListed (inputArgsOnly routine evolvable tensorDict leading trailing ctorParam : Bool) : Bool :=
+  !routine && !(leading || trailing) && !(evolvable || tensorDict) && (!inputArgsOnly || ctorParam)
+
+def Kind.evolvable : Kind → Bool
+  | .network | .optimizer | .target _ => true
+  | _ => false
+
+def shareRule : Share → Rule
+  | .fresh => .fresh
+  | .byRef => .byRef
+
+/-- what the clone holds under an attribute at some point of `clone`: its relation to the parent's cells and
+    whether it holds the parent's values (for `resync src`: the values of the parent's attribute `src`) -/
+structure Slot where
+  rule : Rule
+  faithful : Bool
+deriving Repr, DecidableEq
+
+/-- effect of one phase on attribute `a` of the clone.  `net`: the slot of an online network at that moment
+    (what a re-synchronising hook copies from); `hookWrites`: a registered hook re-binds the attribute;
+    `eq`: the equality test of `copy_attributes` would succeed although the clone's own value is not known
+    to be the parent's -/
+def stepSlot (copy : Kind → Bool → Action) (a : AttrSpec) (hookWrites eq : Bool) (net s : Slot) : Phase → Slot
+  | .construct args =>
+    if a.kind.evolvable then ⟨.fresh, false⟩
+    else if a.ctorArg then ⟨shareRule args, true⟩ else ⟨.fresh, false⟩
+  | .modules single list =>
+    match a.kind with
+    | .network | .target _ => ⟨if single = .fresh ∧ list = .fresh then .fresh else .byRef, true⟩
+    | _ => s
+  | .hook =>
+    match a.kind with
+    | .target src => ⟨.resync src, net.faithful⟩
+    | .network | .optimizer => s
+    | _ => if hookWrites then ⟨.fresh, false⟩ else s
+  | .optimizers nets state =>
+    match a.kind with
+    | .optimizer => ⟨if nets = .cloned ∧ state = .fresh then .fresh else .byRef, true⟩
+    | _ => s
+  | .copyAttrs =>
+    if a.kind.evolvable then s
+    else
+      match copy a.kind (s.faithful || eq) with
+      | .skip => s
+      | .keepOwn => ⟨s.rule, s.faithful || eq⟩
+      | .freshDeep | .freshPerElement => ⟨.fresh, true⟩
+      | .byRef => ⟨.byRef, true⟩
+  | .index => s
+
+def runSlots (copy : Kind → Bool → Action) (a : AttrSpec) (hookWrites eq : Bool) :
+    List Phase → Slot × Slot → Slot × Slot
+  | [], st => st
+  | p :: ps, (s, net) =>
+    runSlots copy a hookWrites eq ps
+      (stepSlot copy a hookWrites eq net s p, stepSlot copy ⟨.network, false⟩ false false net net p)
+
+def deriveSlot (phases : List Phase) (copy : Kind → Bool → Action) (a : AttrSpec) (hookWrites eq : Bool) : Slot :=
+  (runSlots copy a hookWrites eq phases (⟨.fresh, false⟩, ⟨.fresh, false⟩)).1
+
+/-- the rule of attribute `a` DERIVED from a phase list and a copy table (immutable values have no cell) -/
+def deriveRule (phases : List Phase) (copy : Kind → Bool → Action) (a : AttrSpec) (hookWrites eq : Bool) : Rule :=
+  if a.kind = .immutable then .fresh else (deriveSlot phases copy a hookWrites eq).rule
+
+def deriveFaithful (phases : List Phase) (copy : Kind → Bool → Action) (a : AttrSpec) (hookWrites eq : Bool) : Bool :=
+  (deriveSlot phases copy a hookWrites eq).faithful
+
 /-! ### line protocol -/
 
 structure IOState where
